@@ -42,13 +42,13 @@ func (o Ob) Key() string { return o.ID + "|" + o.Rule + "|" + o.KeyFunc + "|" + 
 
 // Check collects the obligations of one property on one build configuration.
 type Check struct {
-	P      *Prog
-	Prop   string
-	Obs    []Ob
-	Floors map[string][2]int
-	Funcs  map[string]bool
-	Sites  int
-	Edges  int
+	P        *Prog
+	Prop     string
+	Obs      []Ob
+	Floors   map[string][2]int
+	Funcs    map[string]bool
+	Sites    int
+	Edges    int
 	Thorough bool
 	// RoleKeys: obligations reported while set are keyed by rule + construct only (the construct names a role,
 	// so the key survives moving the code between functions)
